@@ -1069,3 +1069,26 @@ def run(idx, rep, tier):
     r5(k)
     r6(k)
     r7(k)
+    rep.rule('C06.R8', 'server keyboard-interactive: INFO_RESPONSE is '
+             'processed only while a challenge of ours is outstanding '
+             '(_challenge_sent, set when INFO_REQUEST is sent and cleared '
+             'when the response arrives) - without it the handler only '
+             'raises; a response sent before the (asynchronous) challenge '
+             'was produced must not cancel it and be validated in its place')
+    state_guards(k, 'C06.R8', [
+        ('auth._ServerKbdIntAuth._process_info_response',
+         'self._challenge_sent', True)])
+    _fi = k.func('auth._ServerKbdIntAuth._send_challenge')
+    _g = k.cfg(_fi)
+    _sends = [n for n, c in k.calls_named(_fi, 'send_packet', 'self')
+              if c.args and dotted(c.args[0]) == 'MSG_USERAUTH_INFO_REQUEST']
+    _sets = [n.id for n, v in k.stores_to(_fi, 'self._challenge_sent')
+             if isinstance(v, ast.Constant) and v.value is True]
+    rep.floor('C06.R8', 'INFO_REQUEST send sites', len(_sends), 1)
+    for _n in _sends:
+        _w = _g.path(_n.id, _g.exit, blocked_nodes=_sets, follow_exc=False)
+        rep.check(bool(_sets) and _w is None, 'C06.R8',
+                  key(_fi, 'challenge recorded when sent'),
+                  'every INFO_REQUEST sets _challenge_sent',
+                  'a challenge is sent without being recorded: the genuine '
+                  'response would be refused', k.loc(_fi, _n))
